@@ -426,7 +426,7 @@ pub fn run(ctx: &Ctx) -> Report {
         }
     });
     let mut rep = Report::new(stats,
-        "exhaustive shapes: A(r x k)*B(k x c) and A*v for all (r,k,c) in [0,8]^3; all unary/binary operators, compound assignments, transpose (both), eye, clone, new, clear, fills (every band offset -r-1..c+1), get/set/fill row/col for every index, swap_rows every pair, delete_row every row, resize to every (r',c') in [0,8]^2 for all (r,c) in [0,8]^2, random Rat entries (60 draws quick, 3000 thorough); random histories (<=40 steps of 26 editing operations) in lock step with a Vec<Vec<Rat>> model comparing shape, every entry, numel and private storage length after every step; f64 norms on integer/half-integer data. Every case is non-trivial (a judged operation on generic data); distinct = distinct (shape, draw) hashes");
+        "[round 6: plus long shapes, the whole shape_ops battery on r,c in 9..40 and products on r,k,c in 9..24] exhaustive shapes: A(r x k)*B(k x c) and A*v for all (r,k,c) in [0,8]^3; all unary/binary operators, compound assignments, transpose (both), eye, clone, new, clear, fills (every band offset -r-1..c+1), get/set/fill row/col for every index, swap_rows every pair, delete_row every row, resize to every (r',c') in [0,8]^2 for all (r,c) in [0,8]^2, random Rat entries (60 draws quick, 3000 thorough); random histories (<=40 steps of 26 editing operations) in lock step with a Vec<Vec<Rat>> model comparing shape, every entry, numel and private storage length after every step; f64 norms on integer/half-integer data. Every case is non-trivial (a judged operation on generic data); distinct = distinct (shape, draw) hashes");
     rep.assumptions = vec!["only conformable/in-range calls are made here (mismatches belong to C20)".into(), "integer element types (u8,u32,usize,i8,i64: the library declares Number for them): only operations whose textbook result is representable; an overflow on the way is visible as a panic in the checked profile and as a wrong value otherwise".into(), "hostile interludes (norms of matrices with overflowing column sums, NaN, inf, subnormals) run on the monitor threads between judged cases: state left behind by one call must not reach a later one".into(), "norm_p/norm_frob relative tolerance 16*(r*c+2)*u; norm_1/inf/max exact on this data".into()];
     rep.min_nontrivial = 1000;
     rep.exhaustive = false;
